@@ -14,7 +14,7 @@ from vf.checks import c11
 
 
 def name_of(cfg):
-    return (f"dp{cfg['dp']}xmp{cfg['mp']}/save@{cfg['c']}/"
+    return (f"{cfg.get('gmodel', 'gpt2l')}/dp{cfg['dp']}xmp{cfg['mp']}/save@{cfg['c']}/"
             f"{'dir' if cfg.get('dir') else 'mem'}/inverses="
             f"{cfg['compute']}/bias={cfg.get('bias', True)}/F="
             f"{cfg['kfac'].get('factor_update_steps', 1)}/I="
@@ -166,12 +166,14 @@ def explore_case(part, item):
                         'bound': bound})
 
 
-def mk(dp, mp, c, T, dirmode, compute, seed, f=1, inv=1, bias=True):
+def mk(dp, mp, c, T, dirmode, compute, seed, f=1, inv=1, bias=True,
+       gm='gpt2l'):
     kk = dict(damping=0.05, factor_decay=0.5, kl_clip=1e30, lr=0.1,
               allreduce_bucket_cap_mb=25.0, factor_update_steps=f,
               inv_update_steps=inv)
     return {'dp': dp, 'mp': mp, 'bias': bias, 'batch': 2, 'seed': seed,
             'kfac': kk, 'loss_mult': 4.0, 'c': c, 'T': T, 'dir': dirmode,
+            'gmodel': gm,
             'compute': compute,
             'history': [['train']] * c + [['ckpt', True, compute]] +
             [['train']] * (T - c)}
@@ -179,15 +181,18 @@ def mk(dp, mp, c, T, dirmode, compute, seed, f=1, inv=1, bias=True):
 
 def configs(thorough, seed):
     out = []
-    T = 4 if thorough else 3
-    decomps = [(1, 1), (2, 1), (1, 2), (2, 2)] + ([(3, 1), (1, 3)]
-                                                  if thorough else [])
+    T = 5 if thorough else 3
+    decomps = [(1, 1), (2, 1), (1, 2), (2, 2)] + (
+        [(3, 1), (1, 3), (2, 3), (3, 2)] if thorough else [])
     for (dp, mp), c, dirmode, compute, (f, inv) in itertools.product(
             decomps, range(T + 1), (False, True), (True, False),
             ((1, 1), (1, 2), (2, 2))):
         if not compute and c < T and c % inv != 0:
             continue  # excluded by the documentation
         out.append(mk(dp, mp, c, T, dirmode, compute, seed, f, inv))
+        if (f, inv) != (1, 2):
+            out.append(mk(dp, mp, c, T, dirmode, compute, seed, f, inv,
+                          bias=(c % 2 == 0), gm='gpt3l'))
     return out
 
 
